@@ -75,10 +75,11 @@ def cone_of(vfile):
             continue
         seen.append(f)
         text = strip_comments(open(os.path.join(COQ, f)).read())
-        for m in re.finditer(r"From\s+Http\s+Require\s+(?:Import|Export)\s+([^.]*(?:\.[A-Za-z_][^.\s]*)*)\.", text):
-            pass
-        for m in re.finditer(r"From\s+Http\s+Require\s+(?:Import|Export)\s+((?:[A-Za-z_][\w.]*\s*)+)\.\s", text):
-            for mod in m.group(1).split():
+        for m in re.finditer(r"From\s+Http\s+Require\s+(?:Import|Export)\s+", text):
+            rest = text[m.end():]
+            end = re.search(r"\.(\s|$)", rest)
+            mods = rest[:end.start()] if end else rest
+            for mod in mods.split():
                 p = mod.replace(".", "/") + ".v"
                 if os.path.exists(os.path.join(COQ, p)):
                     todo.append(p)
